@@ -330,12 +330,26 @@ def run_cases(prop, cases, driver, want_model=True):
         spans.append((len(reqs), len(rq)))
         reqs.extend(rq)
     outs = driver.call(reqs) if reqs else []
-    for c, r, (off, n) in zip(cases, reals, spans):
+    # history independence: the first cases of the batch are run again AFTER everything else in the batch ran in this
+    # process; a different answer means the library keeps hidden state between calls (a cache, a shared default, ...)
+    replays = {}
+    if getattr(prop, "repeatable", True):
+        for i in range(min(len(cases), getattr(prop, "repeat_count", 20))):
+            try:
+                r2 = prop.real(cases[i])
+            except Exception as e:      # noqa
+                r2 = {"err": "harness:" + type(e).__name__}
+            if json.dumps(canon(r2), sort_keys=True, default=str) != json.dumps(canon(reals[i]), sort_keys=True, default=str):
+                replays[i] = r2
+    for idx, (c, r, (off, n)) in enumerate(zip(cases, reals, spans)):
         mo = corr = None
         if n:
             mo = prop.model_result(c, outs[off:off + n])
             corr = prop.compare(c, r, mo)
         orc = prop.oracle(c, r)
+        if orc is None and idx in replays:
+            orc = {"kind": "history-dependent", "observed": {"first": r, "again_after_other_calls": replays[idx]},
+                   "required": "the same call gives the same result whatever ran before it in the process"}
         results.append((c, r, mo, corr, orc))
     return results
 
